@@ -11,8 +11,20 @@ ALT_MOUNT = True
 _CFG = None
 
 
+def _exec(cfg):
+    # kernel fidelity for every C02 history: an error of read(2) on an already opened /proc file (ESRCH when the process went away
+    # between open() and read()) reaches psutil the way Python raises it -- without a file name -- so whatever psutil decides from
+    # err.filename / a later look at /proc/<pid> (where the pid may be alive again under a new owner) is exercised for real
+    ex = pm.Exec(cfg)
+    ex.w.bare_read_errors = True
+    return ex
+
+
 def run_h(history):
-    return pm.run_history(_CFG, history)
+    ex = _exec(_CFG)
+    for ev in history:
+        ex.apply(ev)
+    return {"key": ex.canon(), "enabled": ex.enabled(), "viols": list(ex.viols), "label": ex.label}
 
 
 def mk_cfg(ctx, variant="main"):
@@ -95,7 +107,8 @@ def run(ctx):
     return {"coverage": cov, "violations": res["violations"],
             "assumptions": ["kernel events happen between API calls (and, in the mid-call variant, ONE of them inside an is_running() call)",
                             "a recycled pid's new owner starts at a later jiffy than the previous owner (psutil's documented assumption)",
-                            "clock steps of +-1 s; 100 ticks/s (1024 in the second configuration)"]}
+                            "clock steps of +-1 s; 100 ticks/s (1024 in the second configuration)",
+                            "errors of read(2) on an opened /proc file carry no file name (as Python raises them); open() errors do"]}
 
 
 def replay(ctx, case):
@@ -104,7 +117,7 @@ def replay(ctx, case):
         return c02s.replay_s(ctx, case)
     global _CFG
     _CFG = mk_cfg(ctx, case.get("variant", "main"))
-    ex = pm.Exec(_CFG)
+    ex = _exec(_CFG)
     trace = []
     for ev in case["history"]:
         ex.apply(ev)
